@@ -271,6 +271,20 @@ func registerIntrinsics(P *Program) {
 	in["strings.Clone"] = func(fr *frame, args []Value) Value { return args[0] }
 	in["internal/stringslite.Clone"] = in["strings.Clone"]
 
+	in["github.com/cnotch/ipchub/utils/murmur.stringToBinary"] = func(fr *frame, args []Value) Value {
+		bs := fr.m.strBytes(args[0].(Str))
+		out := make([]Value, len(bs))
+		for i, b := range bs {
+			out[i] = b
+		}
+		return out
+	}
+	// murmur hash (unsafe pointer arithmetic): opaque value, only used to derive file names
+	murmurStub := func(fr *frame, args []Value) Value {
+		return fr.m.tb.Const(32, 0x5eed5eed)
+	}
+	in["github.com/cnotch/ipchub/utils/murmur.Of"] = murmurStub
+	in["github.com/cnotch/ipchub/utils/murmur.OfString"] = murmurStub
 	// ---- unsafe builtins appear as calls to ssa.Builtin; handled in callBuiltin ----
 
 	// ---- fmt / errors / debug ----
